@@ -48,166 +48,116 @@ def mkBin (k : Nat) (l : Expr) (t : Token) (r : Expr) : Expr :=
 
 def nLevels : Nat := Expect.ladder.length
 
+
+/-! ### plumbing combinators -/
+
+def PR.bind {α β : Type} (r : PR α) (k : α → List Token → PR β) : PR β :=
+  match r with
+  | .ok a rest => k a rest
+  | .err d => .err d
+  | .abn x => .abn x
+
+/-- `p.peek()` with the remaining tokens; an exhausted token list is the Go index panic -/
+def peekTok {α : Type} (ts : List Token) (k : Token → List Token → PR α) : PR α :=
+  match ts with
+  | [] => .abn .panic
+  | t :: r => k t r
+
+/-- `p.consume(tt, msg)` -/
+def expectTok (tt : TT) (msg : String) (ts : List Token) : PR Token :=
+  peekTok ts fun t r => if t.tt = tt then .ok t r else .err (errAt t msg.toList)
+
 mutual
 
 /-- `expression` = `assignment` -/
 def assignment : Nat → List Token → PR Expr
   | 0, _ => .abn .fuel
   | f + 1, ts =>
-    match binLevel f 0 ts with
-    | .ok e r =>
-      (match r with
-       | [] => .abn .panic
-       | t :: r1 =>
-         if t.tt = .EQUAL then
-           (match assignment f r1 with
-            | .ok v r2 =>
-              (match e with
-               | .ident n l => .ok (.assign n l v t.line) r2
-               | .arrayAccess a i _ => .ok (.arrayAssign a i v t.line) r2
-               | .propAccess o p _ => .ok (.propAssign o p v t.line) r2
-               | _ => .err (errAt t "Invalid assignment target.".toList))
-            | .err d => .err d
-            | .abn x => .abn x)
-         else .ok e r)
-    | .err d => .err d
-    | .abn x => .abn x
+    (binLevel f 0 ts).bind fun e r =>
+      peekTok r fun t r1 =>
+        if t.tt = .EQUAL then
+          (assignment f r1).bind fun v r2 =>
+            match e with
+            | .ident n l => .ok (.assign n l v t.line) r2
+            | .arrayAccess a i _ => .ok (.arrayAssign a i v t.line) r2
+            | .propAccess o p _ => .ok (.propAssign o p v t.line) r2
+            | _ => .err (errAt t "Invalid assignment target.".toList)
+        else .ok e r
 
 /-- level `k` of the ladder (`k = nLevels` is `unary`) -/
 def binLevel : Nat → Nat → List Token → PR Expr
   | 0, _, _ => .abn .fuel
   | f + 1, k, ts =>
-    if k < nLevels then
-      match binLevel f (k + 1) ts with
-      | .ok l r => binLoop f k l r
-      | .err d => .err d
-      | .abn x => .abn x
+    if k < nLevels then (binLevel f (k + 1) ts).bind fun l r => binLoop f k l r
     else unary f ts
 
 /-- `for p.match(ops…) { right := next(); expr = node(expr, op, right) }` -/
 def binLoop : Nat → Nat → Expr → List Token → PR Expr
   | 0, _, _, _ => .abn .fuel
   | f + 1, k, l, ts =>
-    match ts with
-    | [] => .abn .panic
-    | t :: r =>
+    peekTok ts fun t r =>
       if (levelOps k).contains t.tt then
-        match binLevel f (k + 1) r with
-        | .ok right r2 => binLoop f k (mkBin k l t right) r2
-        | .err d => .err d
-        | .abn x => .abn x
+        (binLevel f (k + 1) r).bind fun right r2 => binLoop f k (mkBin k l t right) r2
       else .ok l ts
 
 def unary : Nat → List Token → PR Expr
   | 0, _ => .abn .fuel
   | f + 1, ts =>
-    match ts with
-    | [] => .abn .panic
-    | t :: r =>
+    peekTok ts fun t r =>
       if Expect.unaryOps.contains t.tt then
-        match unary f r with
-        | .ok e r2 => .ok (.unary t.tt t.line e) r2
-        | .err d => .err d
-        | .abn x => .abn x
-      else
-        match primary f ts with
-        | .ok e r2 => suffix f e r2
-        | .err d => .err d
-        | .abn x => .abn x
+        (unary f r).bind fun e r2 => .ok (.unary t.tt t.line e) r2
+      else (primary f ts).bind fun e r2 => suffix f e r2
 
 /-- the postfix loop of `call` -/
 def suffix : Nat → Expr → List Token → PR Expr
   | 0, _, _ => .abn .fuel
   | f + 1, e, ts =>
-    match ts with
-    | [] => .abn .panic
-    | t :: r =>
+    peekTok ts fun t r =>
       if t.tt = .LEFT_PAREN then
-        (match r with
-         | [] => .abn .panic
-         | t2 :: r2 =>
-           if t2.tt = .RIGHT_PAREN then suffix f (.call e t2.line []) r2
-           else
-             match exprList f r with
-             | .ok args r3 =>
-               (match r3 with
-                | [] => .abn .panic
-                | t3 :: r4 =>
-                  if t3.tt = .RIGHT_PAREN then suffix f (.call e t3.line args) r4
-                  else .err (errAt t3 "Expect ')' after arguments.".toList))
-             | .err d => .err d
-             | .abn x => .abn x)
+        peekTok r fun t2 r2 =>
+          if t2.tt = .RIGHT_PAREN then suffix f (.call e t2.line []) r2
+          else
+            (exprList f r).bind fun args r3 =>
+              (expectTok .RIGHT_PAREN "Expect ')' after arguments." r3).bind fun t3 r4 =>
+                suffix f (.call e t3.line args) r4
       else if t.tt = .LEFT_BRACKET then
-        (match assignment f r with
-         | .ok i r2 =>
-           (match r2 with
-            | [] => .abn .panic
-            | t2 :: r3 =>
-              if t2.tt = .RIGHT_BRACKET then suffix f (.arrayAccess e i t2.line) r3
-              else .err (errAt t2 "Expect ']' after array index.".toList))
-         | .err d => .err d
-         | .abn x => .abn x)
+        (assignment f r).bind fun i r2 =>
+          (expectTok .RIGHT_BRACKET "Expect ']' after array index." r2).bind fun t2 r3 =>
+            suffix f (.arrayAccess e i t2.line) r3
       else if t.tt = .DOT then
-        (match r with
-         | [] => .abn .panic
-         | t2 :: r2 =>
-           if t2.tt = .IDENTIFIER then suffix f (.propAccess e t2.lexeme t2.line) r2
-           else .err (errAt t2 "Expect property name after '.'.".toList))
+        (expectTok .IDENTIFIER "Expect property name after '.'." r).bind fun t2 r2 =>
+          suffix f (.propAccess e t2.lexeme t2.line) r2
       else .ok e ts
 
 /-- `expression ("," expression)*` -/
 def exprList : Nat → List Token → PR (List Expr)
   | 0, _ => .abn .fuel
   | f + 1, ts =>
-    match assignment f ts with
-    | .ok a r =>
-      (match r with
-       | [] => .abn .panic
-       | t :: r2 =>
-         if t.tt = .COMMA then
-           match exprList f r2 with
-           | .ok rest r3 => .ok (a :: rest) r3
-           | .err d => .err d
-           | .abn x => .abn x
-         else .ok [a] r)
-    | .err d => .err d
-    | .abn x => .abn x
+    (assignment f ts).bind fun a r =>
+      peekTok r fun t r2 =>
+        if t.tt = .COMMA then (exprList f r2).bind fun rest r3 => .ok (a :: rest) r3
+        else .ok [a] r
 
-/-- the loop of `objectLiteral` (a trailing comma is accepted) -/
-def objProps : Nat → List Token → PR (List (Name × Expr))
+/-- the loop of `objectLiteral`; the flag tells whether a comma followed the last property -/
+def objProps : Nat → List Token → PR (List (Name × Expr) × Bool)
   | 0, _ => .abn .fuel
   | f + 1, ts =>
-    match ts with
-    | [] => .abn .panic
-    | t :: r =>
-      if t.tt = .RIGHT_BRACE || t.tt = .EOF then .ok [] ts
-      else if t.tt ≠ .IDENTIFIER then .err (errAt t "Expect property name. Must be a string.".toList)
+    peekTok ts fun t r =>
+      if t.tt = .RIGHT_BRACE || t.tt = .EOF then .ok ([], false) ts
       else
-        match r with
-        | [] => .abn .panic
-        | c :: r1 =>
-          if c.tt ≠ .COLON then .err (errAt c "Expect ':' after property name.".toList)
-          else
-            match assignment f r1 with
-            | .ok v r2 =>
-              (match r2 with
-               | [] => .abn .panic
-               | t2 :: r3 =>
-                 if t2.tt = .COMMA then
-                   match objProps f r3 with
-                   | .ok ps r4 => .ok ((t.lexeme, v) :: ps) r4
-                   | .err d => .err d
-                   | .abn x => .abn x
-                 else .ok [(t.lexeme, v)] r2)
-            | .err d => .err d
-            | .abn x => .abn x
+        (expectTok .IDENTIFIER "Expect property name. Must be a string." ts).bind fun _ _ =>
+          (expectTok .COLON "Expect ':' after property name." r).bind fun _ r1 =>
+            (assignment f r1).bind fun v r2 =>
+              peekTok r2 fun t2 r3 =>
+                if t2.tt = .COMMA then
+                  (objProps f r3).bind fun ps r4 =>
+                    .ok ((t.lexeme, v) :: ps.1, if ps.1.isEmpty then true else ps.2) r4
+                else .ok ([(t.lexeme, v)], false) r2
 
 def primary : Nat → List Token → PR Expr
   | 0, _ => .abn .fuel
   | f + 1, ts =>
-    match ts with
-    | [] => .abn .panic
-    | t :: r =>
+    peekTok ts fun t r =>
       match t.tt with
       | .FALSE => .ok (.literal (.bool false) t.line) r
       | .TRUE => .ok (.literal (.bool true) t.line) r
@@ -216,45 +166,46 @@ def primary : Nat → List Token → PR Expr
       | .STRING => .ok (.literal (litOf t.lit) t.line) r
       | .IDENTIFIER => .ok (.ident t.lexeme t.line) r
       | .LEFT_PAREN =>
-        (match assignment f r with
-         | .ok e r2 =>
-           (match r2 with
-            | [] => .abn .panic
-            | t2 :: r3 =>
-              if t2.tt = .RIGHT_PAREN then .ok (.grouping e t2.line) r3
-              else .err (errAt t2 "Expect ')' after expression.".toList))
-         | .err d => .err d
-         | .abn x => .abn x)
+        (assignment f r).bind fun e r2 =>
+          (expectTok .RIGHT_PAREN "Expect ')' after expression." r2).bind fun t2 r3 =>
+            .ok (.grouping e t2.line) r3
       | .LEFT_BRACKET =>
-        (match r with
-         | [] => .abn .panic
-         | t2 :: r2 =>
-           if t2.tt = .RIGHT_BRACKET then .ok (.arrayLit []) r2
-           else
-             match exprList f r with
-             | .ok es r3 =>
-               (match r3 with
-                | [] => .abn .panic
-                | t3 :: r4 =>
-                  if t3.tt = .RIGHT_BRACKET then .ok (.arrayLit es) r4
-                  else .err (errAt t3 "Expect ']' after array elements.".toList))
-             | .err d => .err d
-             | .abn x => .abn x)
+        peekTok r fun t2 r2 =>
+          if t2.tt = .RIGHT_BRACKET then .ok (.arrayLit []) r2
+          else
+            (exprList f r).bind fun es r3 =>
+              (expectTok .RIGHT_BRACKET "Expect ']' after array elements." r3).bind fun _ r4 =>
+                .ok (.arrayLit es) r4
       | .LEFT_BRACE =>
-        (match objProps f r with
-         | .ok ps r2 =>
-           (match r2 with
-            | [] => .abn .panic
-            | t2 :: r3 =>
-              if t2.tt = .RIGHT_BRACE then .ok (.objectLit ps) r3
-              else .err (errAt t2 "Expect '}' after object literal.".toList))
-         | .err d => .err d
-         | .abn x => .abn x)
+        (objProps f r).bind fun ps r2 =>
+          (expectTok .RIGHT_BRACE "Expect '}' after object literal." r2).bind fun _ r3 =>
+            .ok (.objectLit ps.1 ps.2) r3
       | _ => .err (errAt t "Unexpected token. Expect expression.".toList)
 
 end
 
 /-! ## statements -/
+
+def SR.bind {α β : Type} (r : SR α) (k : α → List Token → SR β) : SR β :=
+  match r with
+  | .ok a rest ds =>
+    (match k a rest with
+     | .ok b r2 ds2 => .ok b r2 (ds ++ ds2)
+     | .err ds2 => .err (ds ++ ds2)
+     | .abn x => .abn x)
+  | .err ds => .err ds
+  | .abn x => .abn x
+
+/-- an expression-level result used at statement level -/
+def PR.toSR {α : Type} : PR α → SR α
+  | .ok a r => .ok a r []
+  | .err d => .err [d]
+  | .abn x => .abn x
+
+def peekTokS {α : Type} (ts : List Token) (k : Token → List Token → SR α) : SR α :=
+  match ts with
+  | [] => .abn .panic
+  | t :: r => k t r
 
 def isReserved (n : Name) : Bool := Expect.reserved.contains n
 
@@ -262,7 +213,7 @@ def reservedMsg (n : Name) (what : String) : List Char :=
   ['\''] ++ n ++ ("' is a reserved identifier and cannot be used as a " ++ what ++ " name.").toList
 
 def isLiteralInit : Option Expr → Bool
-  | some (.objectLit _) => true
+  | some (.objectLit _ _) => true
   | some (.arrayLit _) => true
   | _ => false
 
@@ -270,107 +221,56 @@ def isLiteralInit : Option Expr → Bool
 def varDecls : Nat → Nat → List Token → PR (List VarDecl)
   | 0, _, _ => .abn .fuel
   | f + 1, initialLine, ts =>
-    match ts with
-    | [] => .abn .panic
-    | t :: r =>
+    peekTok ts fun t r =>
       if t.tt ≠ .IDENTIFIER then .err (errAt t "Expect variable name.".toList)
       else if isReserved t.lexeme then .err (errAt t (reservedMsg t.lexeme "variable"))
       else
         -- optional initializer
-        let afterInit : PR (Option Expr) :=
-          match r with
-          | [] => .abn .panic
-          | e :: r1 =>
-            if e.tt = .EQUAL then
-              match assignment f r1 with
-              | .ok v r2 => .ok (some v) r2
-              | .err d => .err d
-              | .abn x => .abn x
-            else .ok none r
-        match afterInit with
-        | .ok init r2 =>
-          (match r2 with
-           | [] => .abn .panic
-           | p :: r3 =>
-             if !isLiteralInit init && p.line ≠ initialLine then
-               .err (errAt p "Expect ';' before newline.".toList)
-             else if p.tt = .COMMA then
-               match varDecls f initialLine r3 with
-               | .ok rest r4 => .ok (⟨t.lexeme, t.line, init⟩ :: rest) r4
-               | .err d => .err d
-               | .abn x => .abn x
-             else .ok [⟨t.lexeme, t.line, init⟩] r2)
-        | .err d => .err d
-        | .abn x => .abn x
+        (peekTok r fun e r1 =>
+          if e.tt = .EQUAL then (assignment f r1).bind fun v r2 => .ok (some v) r2
+          else .ok none r).bind fun init r2 =>
+        peekTok r2 fun p r3 =>
+          if !isLiteralInit init && p.line ≠ initialLine then .err (errAt p "Expect ';' before newline.".toList)
+          else if p.tt = .COMMA then
+            (varDecls f initialLine r3).bind fun rest r4 => .ok (⟨t.lexeme, t.line, init⟩ :: rest) r4
+          else .ok [⟨t.lexeme, t.line, init⟩] r2
 
 /-- `varDeclaration` (after the `ধরি` token) -/
 def varDeclaration (f : Nat) (ts : List Token) : SR Stmt :=
-  match ts with
-  | [] => .abn .panic
-  | t0 :: _ =>
-    match varDecls f t0.line ts with
-    | .ok ds r =>
-      (match r with
-       | [] => .abn .panic
-       | s :: r2 =>
-         if s.tt = .SEMICOLON then
-           match ds with
-           | [d] => .ok (.var d) r2 []
-           | _ => .ok (.varList ds) r2 []
-         else .err [errAt s "Expect ';' after variable declaration.".toList])
-    | .err d => .err [d]
-    | .abn x => .abn x
+  peekTokS ts fun t0 _ =>
+    ((varDecls f t0.line ts).bind fun ds r =>
+      (expectTok .SEMICOLON "Expect ';' after variable declaration." r).bind fun _ r2 =>
+        match ds with
+        | [d] => .ok (.var d) r2
+        | _ => .ok (.varList ds) r2).toSR
 
 /-- lenient `p.consume(tt, msg)`: on a mismatch report and stay -/
-def lenient (tt : TT) (msg : String) (ts : List Token) : Option (List Token × List Diag) :=
-  match ts with
-  | [] => none
-  | t :: r => if t.tt = tt then some (r, []) else some (ts, [errAt t msg.toList])
+def lenient (tt : TT) (msg : String) (ts : List Token) : SR Unit :=
+  peekTokS ts fun t r => if t.tt = tt then .ok () r [] else .ok () ts [errAt t msg.toList]
 
 /-- `expressionStatement` / `printStatement` -/
 def exprThenSemi (f : Nat) (mk : Expr → Stmt) (ts : List Token) : SR Stmt :=
-  match assignment f ts with
-  | .ok e r =>
-    (match lenient .SEMICOLON "Expect ';' after value." r with
-     | none => .abn .panic
-     | some (r2, ds) => .ok (mk e) r2 ds)
-  | .err d => .err [d]
-  | .abn x => .abn x
+  (assignment f ts).toSR.bind fun e r =>
+    (lenient .SEMICOLON "Expect ';' after value." r).bind fun _ r2 => .ok (mk e) r2 []
 
 /-- parameter list loop of `function` -/
 def params : Nat → Nat → List Token → PR (List Name)
   | 0, _, _ => .abn .fuel
   | f + 1, n, ts =>
-    match ts with
-    | [] => .abn .panic
-    | t :: r =>
+    peekTok ts fun t r =>
       if n ≥ Expect.maxParams then .err (errAt t "Can't have more than 255 parameters.".toList)
       else if t.tt ≠ .IDENTIFIER then .err (errAt t "Expect parameter name.".toList)
       else
-        match r with
-        | [] => .abn .panic
-        | c :: r2 =>
-          if c.tt = .COMMA then
-            match params f (n + 1) r2 with
-            | .ok rest r3 => .ok (t.lexeme :: rest) r3
-            | .err d => .err d
-            | .abn x => .abn x
+        peekTok r fun c r2 =>
+          if c.tt = .COMMA then (params f (n + 1) r2).bind fun rest r3 => .ok (t.lexeme :: rest) r3
           else .ok [t.lexeme] r
-
-/-- strict consume helper for statement level -/
-def expectTok (tt : TT) (msg : String) (ts : List Token) : PR Unit :=
-  match ts with
-  | [] => .abn .panic
-  | t :: r => if t.tt = tt then .ok () r else .err (errAt t msg.toList)
 
 mutual
 
 def declaration : Nat → List Token → SR Stmt
   | 0, _ => .abn .fuel
   | f + 1, ts =>
-    match ts with
-    | [] => .abn .panic
-    | t :: r =>
+    peekTokS ts fun t r =>
       if t.tt = .FUN then function f r
       else if t.tt = .VAR then varDeclaration f r
       else statement f ts
@@ -378,205 +278,77 @@ def declaration : Nat → List Token → SR Stmt
 def function : Nat → List Token → SR Stmt
   | 0, _ => .abn .fuel
   | f + 1, ts =>
-    match ts with
-    | [] => .abn .panic
-    | t :: r =>
+    peekTokS ts fun t r =>
       if t.tt ≠ .IDENTIFIER then .err [errAt t "Expect function name.".toList]
       else if isReserved t.lexeme then .err [errAt t (reservedMsg t.lexeme "function")]
       else
-        match expectTok .LEFT_PAREN "Expect '(' after function name." r with
-        | .ok _ r1 =>
-          let ps : PR (List Name) :=
-            match r1 with
-            | [] => .abn .panic
-            | p :: _ => if p.tt = .RIGHT_PAREN then .ok [] r1 else params f 0 r1
-          (match ps with
-           | .ok names r2 =>
-             (match expectTok .RIGHT_PAREN "Expect ')' after parameters." r2 with
-              | .ok _ r3 =>
-                (match expectTok .LEFT_BRACE "Expect '{' before function body." r3 with
-                 | .ok _ r4 =>
-                   (match block f r4 with
-                    | .ok body r5 ds => .ok (.funS t.lexeme names body) r5 ds
-                    | .err ds => .err ds
-                    | .abn x => .abn x)
-                 | .err d => .err [d]
-                 | .abn x => .abn x)
-              | .err d => .err [d]
-              | .abn x => .abn x)
-           | .err d => .err [d]
-           | .abn x => .abn x)
-        | .err d => .err [d]
-        | .abn x => .abn x
+        ((expectTok .LEFT_PAREN "Expect '(' after function name." r).bind fun _ r1 =>
+          (peekTok r1 fun p _ => if p.tt = .RIGHT_PAREN then .ok [] r1 else params f 0 r1).bind fun names r2 =>
+            (expectTok .RIGHT_PAREN "Expect ')' after parameters." r2).bind fun _ r3 =>
+              (expectTok .LEFT_BRACE "Expect '{' before function body." r3).bind fun _ r4 =>
+                .ok names r4).toSR.bind fun names r4 =>
+          (block f r4).bind fun body r5 => .ok (.funS t.lexeme names body) r5 []
 
 /-- `block` (after `{`): declarations up to `}` or EOF, then a lenient `}` -/
 def block : Nat → List Token → SR (List Stmt)
   | 0, _ => .abn .fuel
   | f + 1, ts =>
-    match ts with
-    | [] => .abn .panic
-    | t :: r =>
+    peekTokS ts fun t r =>
       if t.tt = .RIGHT_BRACE then .ok [] r []
       else if t.tt = .EOF then .ok [] ts [errAt t "Expect '}' after block.".toList]
       else
-        match declaration f ts with
-        | .ok s r1 ds1 =>
-          (match block f r1 with
-           | .ok ss r2 ds2 => .ok (s :: ss) r2 (ds1 ++ ds2)
-           | .err ds2 => .err (ds1 ++ ds2)
-           | .abn x => .abn x)
-        | .err ds => .err ds
-        | .abn x => .abn x
+        (declaration f ts).bind fun s r1 =>
+          (block f r1).bind fun ss r2 => .ok (s :: ss) r2 []
 
 def statement : Nat → List Token → SR Stmt
   | 0, _ => .abn .fuel
   | f + 1, ts =>
-    match ts with
-    | [] => .abn .panic
-    | t :: r =>
+    peekTokS ts fun t r =>
       match t.tt with
       | .IF =>
-        (match expectTok .LEFT_PAREN "Expect '(' after 'if'." r with
-         | .ok _ r1 =>
-           (match assignment f r1 with
-            | .ok c r2 =>
-              (match expectTok .RIGHT_PAREN "Expect ')' after if condition." r2 with
-               | .ok _ r3 =>
-                 (match statement f r3 with
-                  | .ok th r4 ds1 =>
-                    (match r4 with
-                     | [] => .abn .panic
-                     | e :: r5 =>
-                       if e.tt = .ELSE then
-                         match statement f r5 with
-                         | .ok el r6 ds2 => .ok (.ifS c th (some el)) r6 (ds1 ++ ds2)
-                         | .err ds2 => .err (ds1 ++ ds2)
-                         | .abn x => .abn x
-                       else .ok (.ifS c th none) r4 ds1)
-                  | .err ds => .err ds
-                  | .abn x => .abn x)
-               | .err d => .err [d]
-               | .abn x => .abn x)
-            | .err d => .err [d]
-            | .abn x => .abn x)
-         | .err d => .err [d]
-         | .abn x => .abn x)
+        ((expectTok .LEFT_PAREN "Expect '(' after 'if'." r).bind fun _ r1 =>
+          (assignment f r1).bind fun c r2 =>
+            (expectTok .RIGHT_PAREN "Expect ')' after if condition." r2).bind fun _ r3 => .ok c r3).toSR.bind fun c r3 =>
+          (statement f r3).bind fun th r4 =>
+            peekTokS r4 fun e r5 =>
+              if e.tt = .ELSE then (statement f r5).bind fun el r6 => .ok (.ifS c th (some el)) r6 []
+              else .ok (.ifS c th none) r4 []
       | .WHILE =>
-        (match expectTok .LEFT_PAREN "Expect '(' after 'while'." r with
-         | .ok _ r1 =>
-           (match assignment f r1 with
-            | .ok c r2 =>
-              (match expectTok .RIGHT_PAREN "Expect ')' after condition." r2 with
-               | .ok _ r3 =>
-                 (match statement f r3 with
-                  | .ok b r4 ds => .ok (.whileS c b) r4 ds
-                  | .err ds => .err ds
-                  | .abn x => .abn x)
-               | .err d => .err [d]
-               | .abn x => .abn x)
-            | .err d => .err [d]
-            | .abn x => .abn x)
-         | .err d => .err [d]
-         | .abn x => .abn x)
+        ((expectTok .LEFT_PAREN "Expect '(' after 'while'." r).bind fun _ r1 =>
+          (assignment f r1).bind fun c r2 =>
+            (expectTok .RIGHT_PAREN "Expect ')' after condition." r2).bind fun _ r3 => .ok c r3).toSR.bind fun c r3 =>
+          (statement f r3).bind fun b r4 => .ok (.whileS c b) r4 []
       | .FOR =>
-        (match expectTok .LEFT_PAREN "Expect '(' after 'for'." r with
-         | .ok _ r1 =>
-           -- initializer
-           let ini : SR (Option Stmt) :=
-             match r1 with
-             | [] => .abn .panic
-             | i :: r2 =>
-               if i.tt = .SEMICOLON then .ok none r2 []
-               else if i.tt = .VAR then
-                 match varDeclaration f r2 with
-                 | .ok s r3 ds => .ok (some s) r3 ds
-                 | .err ds => .err ds
-                 | .abn x => .abn x
-               else
-                 match exprThenSemi f .expr r1 with
-                 | .ok s r3 ds => .ok (some s) r3 ds
-                 | .err ds => .err ds
-                 | .abn x => .abn x
-           (match ini with
-            | .ok init r3 ds0 =>
-              -- condition
-              let cnd : PR (Option Expr) :=
-                match r3 with
-                | [] => .abn .panic
-                | c :: _ =>
-                  if c.tt = .SEMICOLON then .ok none r3
-                  else
-                    match assignment f r3 with
-                    | .ok e r4 => .ok (some e) r4
-                    | .err d => .err d
-                    | .abn x => .abn x
-              (match cnd with
-               | .ok cond r4 =>
-                 (match expectTok .SEMICOLON "Expect ';' after loop condition." r4 with
-                  | .ok _ r5 =>
-                    let inc : PR (Option Expr) :=
-                      match r5 with
-                      | [] => .abn .panic
-                      | c :: _ =>
-                        if c.tt = .RIGHT_PAREN then .ok none r5
-                        else
-                          match assignment f r5 with
-                          | .ok e r6 => .ok (some e) r6
-                          | .err d => .err d
-                          | .abn x => .abn x
-                    (match inc with
-                     | .ok incr r6 =>
-                       (match expectTok .RIGHT_PAREN "Expect ')' after for clauses." r6 with
-                        | .ok _ r7 =>
-                          (match statement f r7 with
-                           | .ok body r8 ds1 =>
-                             .ok (.forS init (cond.getD (.literal (.bool true) 0)) incr body) r8 (ds0 ++ ds1)
-                           | .err ds1 => .err (ds0 ++ ds1)
-                           | .abn x => .abn x)
-                        | .err d => .err (ds0 ++ [d])
-                        | .abn x => .abn x)
-                     | .err d => .err (ds0 ++ [d])
-                     | .abn x => .abn x)
-                  | .err d => .err (ds0 ++ [d])
-                  | .abn x => .abn x)
-               | .err d => .err (ds0 ++ [d])
-               | .abn x => .abn x)
-            | .err ds => .err ds
-            | .abn x => .abn x)
-         | .err d => .err [d]
-         | .abn x => .abn x)
+        (expectTok .LEFT_PAREN "Expect '(' after 'for'." r).toSR.bind fun _ r1 =>
+          -- initializer
+          (peekTokS r1 fun i r2 =>
+            if i.tt = .SEMICOLON then .ok none r2 []
+            else if i.tt = .VAR then (varDeclaration f r2).bind fun s r3 => .ok (some s) r3 []
+            else (exprThenSemi f .expr r1).bind fun s r3 => .ok (some s) r3 []).bind fun init r3 =>
+          ((peekTok r3 fun c _ =>
+              if c.tt = .SEMICOLON then .ok none r3
+              else (assignment f r3).bind fun e r4 => .ok (some e) r4).bind fun cond r4 =>
+            (expectTok .SEMICOLON "Expect ';' after loop condition." r4).bind fun _ r5 =>
+              (peekTok r5 fun c _ =>
+                if c.tt = .RIGHT_PAREN then .ok none r5
+                else (assignment f r5).bind fun e r6 => .ok (some e) r6).bind fun incr r6 =>
+                (expectTok .RIGHT_PAREN "Expect ')' after for clauses." r6).bind fun _ r7 =>
+                  .ok (cond, incr) r7).toSR.bind fun ci r7 =>
+            (statement f r7).bind fun body r8 =>
+              .ok (.forS init (ci.1.getD (.literal (.bool true) 0)) ci.2 body) r8 []
       | .PRINT => exprThenSemi f .print r
       | .RETURN =>
-        (match r with
-         | [] => .abn .panic
-         | s :: r1 =>
-           if s.tt = .SEMICOLON then .ok (.returnS t.line none) r1 []
-           else
-             match assignment f r with
-             | .ok v r2 =>
-               (match expectTok .SEMICOLON "Expect ';' after return value." r2 with
-                | .ok _ r3 => .ok (.returnS t.line (some v)) r3 []
-                | .err d => .err [d]
-                | .abn x => .abn x)
-             | .err d => .err [d]
-             | .abn x => .abn x)
+        (peekTok r fun s r1 =>
+          if s.tt = .SEMICOLON then .ok (.returnS t.line none) r1
+          else
+            (assignment f r).bind fun v r2 =>
+              (expectTok .SEMICOLON "Expect ';' after return value." r2).bind fun _ r3 =>
+                .ok (.returnS t.line (some v)) r3).toSR
       | .BREAK =>
-        (match r with
-         | [] => .abn .panic
-         | s :: r1 =>
-           if s.tt = .SEMICOLON then .ok (.breakS s.line) r1 []
-           else .err [errAt s "Expected ; after break.".toList])
+        ((expectTok .SEMICOLON "Expected ; after break." r).bind fun s r1 => .ok (.breakS s.line) r1).toSR
       | .CONTINUE =>
-        (match r with
-         | [] => .abn .panic
-         | s :: r1 =>
-           if s.tt = .SEMICOLON then .ok (.continueS s.line) r1 []
-           else .err [errAt s "Expected ; after continue.".toList])
-      | .LEFT_BRACE =>
-        (match block f r with
-         | .ok ss r1 ds => .ok (.block ss) r1 ds
-         | .err ds => .err ds
-         | .abn x => .abn x)
+        ((expectTok .SEMICOLON "Expected ; after continue." r).bind fun s r1 => .ok (.continueS s.line) r1).toSR
+      | .LEFT_BRACE => (block f r).bind fun ss r1 => .ok (.block ss) r1 []
       | _ => exprThenSemi f .expr ts
 
 end
@@ -585,19 +357,11 @@ end
 def program : Nat → List Token → SR (List Stmt)
   | 0, _ => .abn .fuel
   | f + 1, ts =>
-    match ts with
-    | [] => .abn .panic
-    | t :: _ =>
+    peekTokS ts fun t _ =>
       if t.tt = .EOF then .ok [] ts []
       else
-        match declaration f ts with
-        | .ok s r ds1 =>
-          (match program f r with
-           | .ok ss r2 ds2 => .ok (s :: ss) r2 (ds1 ++ ds2)
-           | .err ds2 => .err (ds1 ++ ds2)
-           | .abn x => .abn x)
-        | .err ds => .err ds
-        | .abn x => .abn x
+        (declaration f ts).bind fun s r =>
+          (program f r).bind fun ss r2 => .ok (s :: ss) r2 []
 
 def fuelFor (ts : List Token) : Nat := 40 * (ts.length + 2)
 
